@@ -111,3 +111,27 @@ func ExpandProcs(evTimeoutMs, boundMs, probes int, batching bool) hx.Sx {
 	}
 	return hx.L(cfg, hx.L(hx.L(ops...)), hx.L())
 }
+
+// StopGiveUp: the two causes of a retry give-up side by side, on a retriable output with `retry` attempts (negative: for
+// ever).  Batches of one event; batch 1 fails once, batch 3 fails retry+2 times (once when retry < 0), the others succeed.
+// With retentionMs > 30 min the backoff library answers backoff.Stop on the first failure (attempts remaining); with a small
+// retention batch 1 is retried and succeeds, batch 3 uses up its attempts.  deadq: the failed events go to a dead queue whose
+// sends block for dqDelayMs: until they return no output has acknowledged those events, and the main batcher must have come
+// back from Out with an empty batch (nothing to commit), whatever made the retry loop stop.
+func StopGiveUp(procs, workers, retry int, deadq bool, dqDelayMs, retentionMs int) hx.Sx {
+	ev := func(off int) hx.Sx {
+		return hx.L(hx.I(0), hx.I(1), hx.I(off), hx.S(`{"stream":"a","ops":"","m":""}`))
+	}
+	dq := 0
+	if deadq {
+		dq = 1
+	}
+	cfg := hx.L(hx.I(procs), hx.I(0), hx.I(24), hx.I(40), hx.I(0), hx.I(2), hx.I(workers), hx.I(1), hx.I(10), hx.I(retry), hx.I(dq), hx.I(0))
+	ops := []hx.Sx{ev(10), hx.L(hx.I(1), hx.I(3)), ev(20), hx.L(hx.I(1), hx.I(3)), ev(30), hx.L(hx.I(1), hx.I(3)), ev(40), hx.L(hx.I(1), hx.I(dqDelayMs/2+5)), ev(50)}
+	last := 1
+	if retry >= 0 {
+		last = retry + 2
+	}
+	plan := hx.L(hx.L(hx.I(0), hx.I(0)), hx.L(hx.I(0), hx.I(1)), hx.L(hx.I(2), hx.I(0)), hx.L(hx.I(0), hx.I(last)), hx.L(hx.I(0), hx.I(0)))
+	return hx.L(cfg, hx.L(hx.L(ops...)), plan, hx.L(hx.I(0), hx.I(retentionMs), hx.I(0), hx.I(0), hx.I(dqDelayMs)))
+}
